@@ -142,7 +142,14 @@ def gen_random(rnd):
             for _ in range(rnd.randrange(1, 5)):
                 k = rnd.random()
                 if k < 0.25:
-                    chunks.append(("n", apm.num(rnd.choice([0, 1, 10, 127, 128, 255, rnd.randrange(256)]), rnd.choice([None, "d", "x"]))))
+                    v = rnd.choice([0, 1, 10, 127, 128, 255, rnd.randrange(256)])
+                    if rnd.random() < 0.4:
+                        # a code given by a constant that may be defined further down: the directive cannot be evaluated when it is met
+                        nm = f"c{len(consts)}"
+                        consts[nm] = v
+                        chunks.append(("n", ("sym", nm)))
+                    else:
+                        chunks.append(("n", apm.num(v, rnd.choice([None, "d", "x"]))))
                 else:
                     pool = REPERTOIRE[charset] + ("\n\t\r\\'\"/\x01\x7f" if rnd.random() < 0.5 else "")
                     if rnd.random() < 0.08 and OUTSIDE[charset]:
